@@ -100,7 +100,8 @@ func c20Work(c *mc.Ctx) {
 		c.MachineErr("VERIF_PLENCTAG is not set (bin/check builds /repo/cmd/plenctag and exports it)")
 		return
 	}
-	dir, err := os.MkdirTemp(filepath.Join(mc.VerifDir, ".build"), "c20-")
+	os.MkdirAll(filepath.Join(mc.OutDir, ".build"), 0o755)
+	dir, err := os.MkdirTemp(filepath.Join(mc.OutDir, ".build"), "c20-")
 	if err != nil {
 		c.MachineErr(err.Error())
 		return
